@@ -79,7 +79,7 @@ def post_corr(c, cfg):
                 detail=report[:600],
                 replay=dict(seed=seed, n=n, how="cd harness && go build -race -tags verif -o bin/c13race ./cmd/c13 && GOMAXPROCS=%s bin/c13race -prop C13RACE -seed %d -n %d" % (env["GOMAXPROCS"], seed, n),
                             race_report=report[:6000],
-                            theorems="M3d.C13.facts_workers_safe / updateAt_racy (model witness: schedule 0,1,0,1)")))
+                            theorems="M3d.C13.facts_workers_safe / updateAt_racy (model witness: schedule 0,1,0,1); facts_queries_readonly / query_field_scratch_racy (model witness: interrupted 2)")))
     c.extra_cov["race_detector"] = dict(runs=len(seeds), n=n, gomaxprocs=env["GOMAXPROCS"], distinct_reports=total)
 
 
@@ -136,6 +136,33 @@ def search(c, cfg, missing):
                 site=f"facts:c13/{m.group(1)}:{m.group(2)}", kind="worker-writes-shared-state-unguarded", found_input=False,
                 detail=what, replay=dict(worker=m.group(2), file=m.group(1), effects=what, model_witness=wit,
                                          theorems="M3d.C13.facts_workers_safe")))
+    m = re.search(r"def cacheScalarFunc : List String := \[(.*?)\]\n", src)
+    if m and m.group(1).replace(" ", "") != '"decl:sync.Map","call:Load","call:Store"':
+        wit = _driver(c, "c13 cachesearch claim")
+        c.notes.append(f"CacheScalarFunc uses its cache as [{m.group(1)}], not Load/compute/Store; model of 'claim the entry, fill it later': {wit}")
+        c.violations.append(dict(
+            site="facts:c13/cacheScalarFunc-shape", kind="facts-do-not-match-model", found_input=False,
+            detail=f"cache operations [{m.group(1)}] differ from the modelled Load / Store",
+            replay=dict(shape=m.group(1), expected="decl:sync.Map, call:Load, call:Store", model_witness=wit,
+                        theorems="M3d.C13.facts_cacheScalarFunc, cache_memo_returns_fx, cache_claim_first_racy",
+                        concrete="see corr:c13 nestcache / cachefunc of this run")))
+    m = re.search(r"def queryReceiverWrites : List String := \[(.*?)\]\n", src)
+    if m and m.group(1).strip():
+        writes = re.findall(r'"((?:[^"\\]|\\.)*)"', m.group(1))
+        wit = _driver(c, "c13 qsearch field")
+        ok = _driver(c, "c13 qsearch local")
+        c.notes.append("query methods write their receiver: " + "; ".join(writes) +
+                       f" -- two staged queries with the staging area on the shared structure: {wit}; with call-local staging: {ok}")
+        by_method = {}
+        for w in writes:
+            by_method.setdefault(w.split(":")[0], []).append(w.split(":", 1)[1].strip() if ":" in w else "")
+        for meth, ws in sorted(by_method.items()):
+            c.violations.append(dict(
+                site=f"facts:c13/query-writes-receiver:{meth}", kind="query-method-writes-shared-structure", found_input=False,
+                detail=f"{meth} writes {', '.join(ws)}",
+                replay=dict(method=meth, writes=ws, model_witness=wit, model_local=ok,
+                            theorems="M3d.C13.facts_queries_readonly, owned_state_noninterference, query_field_scratch_racy",
+                            concrete="see the corr:c13 nestq / nestobj / rendersched / sharedq / sharedobj and race: violations of this run")))
     return found
 
 
@@ -146,17 +173,19 @@ PROP = dict(
     thorough_seeds=4,
     post_corr=post_corr,
     search=search,
-    corr_theorems="M3d.C13.dcl_single_creation / readers_eq_sequential (mesh first queries, same index object), index_partition_race_free + concurrentMap_eq_sequential (rasterise, dc/mc populate, KMeans.Assign), mutex_reduction_correct (KMeans.Iterate), chan_each_index_once (render, mapc), updateAt_locked_is_max (height map): the model answer of every scenario is the answer of sequential use",
-    rule="scenario instances from one PRNG seed: N in {2,3,4,8,16,32} goroutines issuing first queries (Find/Neighbors/VertexSlice/IterateVertices/Find2) on a fresh 3D/2D mesh so that they race the lazy index build, plus identity of the index object; concurrent queries on shared and concurrently derived MeshToCollider/MeshToSDF/ColliderSolid (3D, 2D); RasterizeSolid/Rasterize/RasterizeColliderSolid, KMeans.Iterate+Assign (exact integer data), MarchingCubes/Search/Filter/C2F/DualContouring, RayCaster.Render at GOMAXPROCS 2,3,4,8,16 vs GOMAXPROCS 1; HeightMap.AddSpheresSDF vs sequential replay of the recorded spheres; CacheScalarFunc; mapCoordinates index hand-out. distinct = distinct op lines. The same scenarios run a second time under the race detector (GOMAXPROCS >= 8).",
+    corr_theorems="M3d.C13.dcl_single_creation / readers_eq_sequential (mesh first queries, same index object), index_partition_race_free + concurrentMap_eq_sequential (rasterise, dc/mc populate, KMeans.Assign), mutex_reduction_correct (KMeans.Iterate), chan_each_index_once (render, mapc), updateAt_locked_is_max (height map), cache_memo_returns_fx (cachefunc, nestcache), owned_state_noninterference + query_local_scratch_eq_sequential (nestq, nestobj, rendersched, sharedq, sharedobj, derived3/2: a query that stages its results in state of its own call returns, under every schedule, what it returns alone; query_field_scratch_racy is the model witness for the interrupted-query schedule the harness forces): the model answer of every scenario is the answer of sequential use",
+    rule="scenario instances from one PRNG seed: N in {2,3,4,8,16,32} goroutines issuing first queries (Find/Neighbors/VertexSlice/IterateVertices/Find2) on a fresh 3D/2D mesh so that they race the lazy index build, plus identity of the index object; concurrent queries on shared and concurrently derived MeshToCollider/MeshToSDF/ColliderSolid (3D, 2D); sharedq/sharedobj: N goroutines with their own query lists on one library structure (ProfileCollider, wide JoinedCollider, TransformCollider, nested joins, the ColliderSolid/Inset/Hollow and ColliderToSDF derived from it; Objectify with a nowhere-constant ColorFunc, JoinedObject, FilteredObject, Translate/Rotate/Scale) over plain leaves; nestq/nestobj: the same structures over user-supplied leaves that report entry/exit to a gate -- goroutine A is parked at its k-th callback into user code (for objects also between Cast and the use of the material), goroutine B runs 1-3 complete queries, A continues; every park position k of A's query is tried (all when <= 10, else 10 sampled), answers of A, of B and of A afterwards vs sequential use; rendersched: a real RecursiveRayTracer.Render (MaxDepth 0, 1 sample: deterministic) of an Objectify'd scene in which the worker of a lit pixel P is held at its shadow-ray cast until another worker has cast the primary ray of a pixel Q of another color, image vs the one-goroutine rendering (hook VerifRenderSequential); RasterizeSolid/Rasterize/RasterizeColliderSolid, KMeans.Iterate+Assign (exact integer data), MarchingCubes/Search/Filter/C2F/DualContouring and MarchingCubes over ColliderSolid(ProfileCollider), RayCaster.Render (incl. an Objectify'd object) at GOMAXPROCS 2,3,4,8,16 vs GOMAXPROCS 1; HeightMap.AddSpheresSDF vs sequential replay of the recorded spheres; CacheScalarFunc free-running and (nestcache) with the first evaluation of f(x) parked at entry / at exit while another goroutine asks for the same x; kmeanssched: KMeans.Iterate over a user vector type whose Add holds the first merge into the shared sums open until a second merge is in flight (bounded wait: under the lock none can start), integer data, GOMAXPROCS 2-4 vs 1; mapCoordinates index hand-out. distinct = distinct op lines. The free-running scenarios run a second time under the race detector (GOMAXPROCS >= 8); the gated ones are fully synchronised by construction and are not.",
     trusted=[
-        "modelled, not verified: the Go memory model (happens-before from program order, mutex, sequentially consistent atomics, channels) and the scheduler (any interleaving of atomic steps); a racy read returns the latest value in the interleaving (no weak-memory behaviours); index build and queries are single plain accesses of one cell",
-        "the tie is the SHAPE of the code (go/ast, no type information): the statement sequence of getVertexToFace, mapCoordinates, updateAt, CacheScalarFunc and the syntactic class of every write/mutating call on captured state in every worker closure; 'own index' means the index expression mentions the worker's own parameter (injectivity of e.g. indices[i] -> (x,y) is not checked), 'read-only' methods of captured interfaces (Solid.Contains, SDF, Collider, Object.Cast, materials) are assumed race-free",
+        "modelled, not verified: the Go memory model (happens-before from program order, mutex, sequentially consistent atomics, channels) and the scheduler (any interleaving of atomic steps); a racy read returns the latest value in the interleaving (no weak-memory behaviours); index build and queries are single plain accesses of one cell; a query is a straight-line sequence of plain reads/writes (no branches) in owned_state_noninterference",
+        "the tie is the SHAPE of the code (go/ast, no type information): the statement sequence of getVertexToFace, mapCoordinates, updateAt, CacheScalarFunc and the syntactic class of every write/mutating call on captured state in every worker closure (plus plain writes of package-level variables in callees, resolved by name); 'own index' means the index expression mentions the worker's own parameter (injectivity of e.g. indices[i] -> (x,y) is not checked)",
+        "'query methods do not write their receiver' (facts_queries_readonly) is syntactic: assignments whose root is the receiver, element writes/appends through a slice expression of a receiver field, and the same through methods of the same type; writes through other aliases (a pointer field copied into a local, a callee of another type) are invisible to it -- the interrupted-query and free-running scenarios and the race detector cover those only for the structures they build",
+        "user-supplied leaves (Solid.Contains, SDF, Collider, Object.Cast, materials, ColorFunc) are assumed safe for concurrent calls",
         "the race detector only sees the schedules that occur in the run; it backs the theorem, it does not decide the property",
     ],
     assumptions=[
         "callers do not mutate a mesh/collider/solid while others read it (the property is about read-only use)",
         "user-supplied solids, SDFs, filters and materials are themselves safe for concurrent calls",
     ],
-    level_text="Theorems (Lean 4) over an interleaving semantics with happens-before, for EVERY schedule and every number of threads, proved by inductive invariants: double-checked creation of the vertex index builds exactly once, every reader gets the same fully built object and the sequential answer, no data race (dcl_single_creation, readers_eq_sequential); disjoint index hand-out never conflicts and equals the sequential map, instantiated with ConcurrentMap's strided hand-out (index_partition_race_free, concurrentMap_eq_sequential); mutex-guarded reduction equals the sequential fold for commutative-associative merges (mutex_reduction_correct); a pre-filled channel delivers every index exactly once (chan_each_index_once); updateAt under a mutex ends at the maximum with consistent 'changed' flags, the unsynchronised version has a decided two-thread race + lost-update witness (updateAt_locked_is_max, updateAt_racy). Tie: M3d/Gen/ConcFacts.lean is regenerated from /repo with go/ast on every run and facts_* theorems require the extracted statement sequences to equal the modelled ones and every worker closure's effects on captured state to be in a proved-safe class; the real scenarios are run concurrently vs sequentially (outputs must be identical) and once more under the race detector.",
+    level_text="Theorems (Lean 4) over an interleaving semantics with happens-before, for EVERY schedule and every number of threads, proved by inductive invariants: double-checked creation of the vertex index builds exactly once, every reader gets the same fully built object and the sequential answer, no data race (dcl_single_creation, readers_eq_sequential); disjoint index hand-out never conflicts and equals the sequential map, instantiated with ConcurrentMap's strided hand-out (index_partition_race_free, concurrentMap_eq_sequential); mutex-guarded reduction equals the sequential fold for commutative-associative merges (mutex_reduction_correct); a pre-filled channel delivers every index exactly once (chan_each_index_once); updateAt under a mutex ends at the maximum with consistent 'changed' flags, the unsynchronised version has a decided two-thread race + lost-update witness (updateAt_locked_is_max, updateAt_racy); Load/compute/Store memoisation returns f(x) to every caller, claim-first has a decided witness (cache_memo_returns_fx, cache_claim_first_racy); immutable query structures: goroutines that write only state owned by their own call and read only that and the never-written structure are race-free and each computes exactly what it computes alone, for arbitrary straight-line query programs and any ownership map (owned_state_noninterference), instantiated with the staged query (query_local_scratch_eq_sequential), while staging in a field of the shared structure has a decided race + wrong-answer witness under the interrupted-query schedule (query_field_scratch_racy). Tie: M3d/Gen/ConcFacts.lean is regenerated from /repo with go/ast on every run and facts_* theorems require the extracted statement sequences to equal the modelled ones, every worker closure's effects on captured state to be in a proved-safe class, and none of the ~370 query methods (Collider/Solid/SDF/Object/Material/mesh queries of model2d, model3d, render3d, toolbox3d) to assign memory of its receiver (facts_queries_readonly, facts_queries_cover); the real scenarios are run concurrently vs sequentially (outputs must be identical) -- free-running, under schedules forced through gated user callbacks (every park position of the interrupted query; a real rendering with two workers forced to overlap), and once more under the race detector.",
     level_note="The Go memory model and scheduler are modelled, not verified; the tie covers the shape of the code, not the runtime; the race detector sees only schedules that occur. Weak-memory effects, compiler reordering, goroutine starvation and panics inside workers are outside the model.",
 )
